@@ -43,6 +43,7 @@ def show_addr(a):
 
 
 _BIT_FORM = [0]
+_BITS_FORM = [0]
 
 
 def exec_builder(cells, ops, builder=None):
@@ -65,7 +66,34 @@ def exec_builder(cells, ops, builder=None):
             elif k == 'c':
                 b.store_coins(int(p[1]))
             elif k == 'b':
-                b.store_bits('' if p[1] == '-' else p[1])
+                # every iterable form store_bits admits: '0'/'1' text, list / tuple of ints, a generator, map, iterator, bitarray, TvmBitarray
+                bs = '' if p[1] == '-' else p[1]
+                _BITS_FORM[0] += 1
+                form = _BITS_FORM[0] % 8
+                if form == 0:
+                    b.store_bits(bs)
+                elif form == 1:
+                    b.store_bits([int(c) for c in bs])
+                elif form in (2, 3, 4):
+                    # iterables WITHOUT a length: the library may refuse them outright (TypeError, nothing stored - it does today);
+                    # if it takes them, the capacity rule applies as to any other form
+                    it = (int(c) for c in bs) if form == 2 else map(int, bs) if form == 3 else iter([int(c) for c in bs])
+                    n0 = len(b.bits)
+                    try:
+                        b.store_bits(it)
+                    except TypeError:
+                        if len(b.bits) != n0:
+                            raise
+                        b.store_bits([int(c) for c in bs])
+                elif form == 5:
+                    from bitarray import bitarray
+                    b.store_bits(bitarray(bs))
+                elif form == 6:
+                    from pytoniq_core.boc.tvm_bitarray import TvmBitarray
+                    from bitarray import bitarray
+                    b.store_bits(TvmBitarray(1023, bitarray(bs)))
+                else:
+                    b.store_bits(tuple(c == '1' for c in bs))
             elif k == 'by':
                 b.store_bytes(bytes.fromhex(p[1].replace('-', '')))
             elif k == 'bit':
